@@ -302,6 +302,16 @@ static bool bind_tree(const struct mstate* m, int node, cbor_item_t* it) {
   }
 }
 
+/* "Lending": the documented cbor_move idiom hands an argument to the call with the client's reference already given
+ * up (its count may be 0 during the call); whatever the call answers, the client re-acquires it with cbor_incref
+ * afterwards, which is legal because either the container now keeps the item alive or the refused call left it exactly
+ * as it was. The net effect equals the plain call, so the model is unchanged; what differs is the count the library
+ * sees, in particular 0 on a refusal path. */
+static bool g_lend;
+static uint64_t g_lent_calls, g_lent_refused;
+#define LEND(x) do { if (g_lend) cbor_move(x); } while (0)
+#define UNLEND(x, res_) do { if (g_lend) { cbor_incref(x); g_lent_calls++; if (!(res_)) g_lent_refused++; } } while (0)
+
 /* Executes op on the library, given the model states before (pre) and after (post).
  * Returns the observed boolean result (or -2 on a structural surprise). */
 static int r_apply(const struct mstate* pre, const struct mstate* post, struct op o, int expect) {
@@ -327,13 +337,23 @@ static int r_apply(const struct mstate* pre, const struct mstate* post, struct o
       LIB(cbor_intermediate_decref(rslot[o.a])); LIBEND();
       if (post->slot[o.a] < 0) rslot[o.a] = NULL;
       return 1;
-    case OP_PUSH: res = LIB(cbor_array_push(rslot[o.a], rslot[o.b])); LIBEND(); return res;
+    case OP_PUSH: LEND(rslot[o.b]); res = LIB(cbor_array_push(rslot[o.a], rslot[o.b])); LIBEND(); UNLEND(rslot[o.b], res); return res;
     case OP_MOVEPUSH:
       res = LIB(cbor_array_push(rslot[o.a], cbor_move(rslot[o.b]))); LIBEND();
       if (post->slot[o.b] < 0) rslot[o.b] = NULL;
       return res;
-    case OP_SET: res = LIB(cbor_array_set(rslot[o.a], o.b >= 200 ? huge_index(o.b) : o.b, rslot[o.c])); LIBEND(); return res;
-    case OP_REPLACE: res = LIB(cbor_array_replace(rslot[o.a], o.b >= 200 ? huge_index(o.b) : o.b, rslot[o.c])); LIBEND(); return res;
+    case OP_SET: case OP_REPLACE: {
+      /* the call drops the displaced member, and with it possibly the last other reference to the lent item (the member
+       * is the item, or a container holding it): a client may only lend what stays alive without its own reference */
+      bool self = o.b < 200 && (int)o.b < pre->n[a].nmem && m_reaches(pre, pre->n[a].mem[o.b], pre->slot[o.c]);
+      bool lend0 = g_lend;
+      if (self) g_lend = false;
+      LEND(rslot[o.c]);
+      res = o.code == OP_SET ? LIB(cbor_array_set(rslot[o.a], o.b >= 200 ? huge_index(o.b) : o.b, rslot[o.c])) : LIB(cbor_array_replace(rslot[o.a], o.b >= 200 ? huge_index(o.b) : o.b, rslot[o.c]));
+      LIBEND(); UNLEND(rslot[o.c], res);
+      g_lend = lend0;
+      return res;
+    }
     case OP_GET: {
       cbor_item_t* g = LIB(cbor_array_get(rslot[o.a], o.b >= 200 ? huge_index(o.b) : o.b)); LIBEND();
       if (expect == 0 && g != NULL) { cbor_item_t* tmp = g; (void)tmp; } /* reported below as result-differs-from-model */
@@ -344,10 +364,16 @@ static int r_apply(const struct mstate* pre, const struct mstate* post, struct o
       }
       return g == NULL ? 0 : 1;
     }
-    case OP_MAPADD: res = LIB(cbor_map_add(rslot[o.a], (struct cbor_pair){.key = rslot[o.b], .value = rslot[o.c]})); LIBEND(); return res;
+    case OP_MAPADD:
+      LEND(rslot[o.b]); if (rslot[o.c] != rslot[o.b]) LEND(rslot[o.c]);
+      res = LIB(cbor_map_add(rslot[o.a], (struct cbor_pair){.key = rslot[o.b], .value = rslot[o.c]})); LIBEND();
+      UNLEND(rslot[o.b], res); if (rslot[o.c] != rslot[o.b]) UNLEND(rslot[o.c], res);
+      return res;
     case OP_ADDCHUNK:
+      LEND(rslot[o.b]);
       res = pre->n[a].kind == K_IBS ? LIB(cbor_bytestring_add_chunk(rslot[o.a], rslot[o.b])) : LIB(cbor_string_add_chunk(rslot[o.a], rslot[o.b]));
       LIBEND();
+      UNLEND(rslot[o.b], res);
       return res;
     case OP_TAGSET:
       if (pre->n[a].nmem == 1) rslot[o.c] = ritem[pre->n[a].mem[0]];
@@ -421,7 +447,9 @@ static void render_history(const struct op* ops, int n, struct vh_buf* out) {
   for (int i = 0; i < n; i++) {
     struct op o = ops[i];
     if (i) vb_printf(out, "; ");
-    if (o.code & 0x80) { vb_printf(out, "[allocator refuses everything] "); o.code &= 0x7f; }
+    if (o.code & 0x80) vb_printf(out, "[allocator refuses everything] ");
+    if (o.code & 0x40) vb_printf(out, "[arguments passed through cbor_move, re-acquired with cbor_incref after the call] ");
+    o.code &= 0x3f;
     switch (o.code) {
       case OP_NEW: vb_printf(out, "s%d=new(%s%s%.0d)", o.a, kind_names[o.b < K_NKINDS ? o.b : 0], (o.b == K_DARR || o.b == K_DMAP) ? " cap " : "", (o.b == K_DARR || o.b == K_DMAP) ? o.c : 0); if ((o.b == K_DARR || o.b == K_DMAP) && o.c == 0) vb_printf(out, "0"); break;
       case OP_INCREF: case OP_DECREF: case OP_IDECREF: case OP_SERIALIZE: case OP_DESCRIBE: case OP_REHANDLE: vb_printf(out, "%s(s%d)", op_names[o.code], o.a); break;
@@ -526,7 +554,8 @@ static int run_history(const struct op* ops, int nops, bool allow_oob) {
       } else o = ops[i];
       bool refuse = (o.code & 0x80) != 0;
       struct op shown = o;
-      o.code &= 0x7f;
+      g_lend = (o.code & 0x40) != 0;
+      o.code &= 0x3f;
       struct mstate pre = m;
       int expect = m_apply(&m, o, allow_oob);
       if (expect < 0) { m = pre; if (final_phase) vh_die("hist: final drop not applicable"); goto next_op; }
@@ -546,13 +575,13 @@ static int run_history(const struct op* ops, int nops, bool allow_oob) {
       if (executed < 64) done[executed] = o;
       executed++;
       g_ops_executed++;
-      g_op_hist[o.code & 0x7f]++;
+      g_op_hist[o.code & 0x3f]++;
       if (expect == 0) g_refused_ops++;
       if (got == -2) return executed;
       if (got != expect) {
         struct vh_buf h = {0};
         render_history(done, executed < 64 ? executed : 64, &h);
-        vh_violation("result-differs-from-model", "%s returned %s, the model of the documented behaviour says %s; history: %s", op_names[o.code & 0x7f], got ? "success/item" : "failure/NULL", expect ? "success" : "refusal", (char*)h.p);
+        vh_violation("result-differs-from-model", "%s returned %s, the model of the documented behaviour says %s; history: %s", op_names[o.code & 0x3f], got ? "success/item" : "failure/NULL", expect ? "success" : "refusal", (char*)h.p);
         vb_free(&h);
         return executed;
       }
@@ -567,7 +596,7 @@ static int run_history(const struct op* ops, int nops, bool allow_oob) {
           struct vh_buf h = {0};
           render_history(done, executed < 64 ? executed : 64, &h);
           vh_violation("refcount-differs-from-rules", "after step %d (%s) node %d (%s) has reference count %zu; the ownership rules say %d (%d held by the client, %d by containers); history: %s",
-                       executed, op_names[o.code & 0x7f], k, kind_names[m.n[k].kind], have, want, m_client(&m, k), m_indeg(&m, k), (char*)h.p);
+                       executed, op_names[o.code & 0x3f], k, kind_names[m.n[k].kind], have, want, m_client(&m, k), m_indeg(&m, k), (char*)h.p);
           vb_free(&h);
           return executed;
         }
@@ -583,14 +612,14 @@ static int run_history(const struct op* ops, int nops, bool allow_oob) {
           if (was_freed && !dies) {
             struct vh_buf h = {0};
             render_history(done, executed < 64 ? executed : 64, &h);
-            vh_violation("released-while-referenced", "step %d (%s) released node %d (%s) although %d reference(s) to it remain; history: %s", executed, op_names[o.code & 0x7f], k, kind_names[pre.n[k].kind], m_client(&m, k) + m_indeg(&m, k), (char*)h.p);
+            vh_violation("released-while-referenced", "step %d (%s) released node %d (%s) although %d reference(s) to it remain; history: %s", executed, op_names[o.code & 0x3f], k, kind_names[pre.n[k].kind], m_client(&m, k) + m_indeg(&m, k), (char*)h.p);
             vb_free(&h);
             return executed;
           }
           if (dies && !was_freed) {
             struct vh_buf h = {0};
             render_history(done, executed < 64 ? executed : 64, &h);
-            vh_violation("not-released-with-last-reference", "step %d (%s) dropped the last reference to node %d (%s) but its block was not released; history: %s", executed, op_names[o.code & 0x7f], k, kind_names[pre.n[k].kind], (char*)h.p);
+            vh_violation("not-released-with-last-reference", "step %d (%s) dropped the last reference to node %d (%s) but its block was not released; history: %s", executed, op_names[o.code & 0x3f], k, kind_names[pre.n[k].kind], (char*)h.p);
             vb_free(&h);
             return executed;
           }
@@ -741,6 +770,7 @@ static void random_history(uint64_t u, int maxlen, bool allow_oob) {
       o.code |= 0x80;
       if (!grows) m = next; /* expected to proceed without allocating */
     } else m = next;
+    { int base = o.code & 0x3f; if ((base == OP_PUSH || base == OP_SET || base == OP_REPLACE || base == OP_MAPADD || base == OP_ADDCHUNK) && vh_below(&r, 3) == 0) o.code |= 0x40; }
     ops[n++] = o;
   }
   history_case(ops, n, allow_oob);
@@ -766,10 +796,12 @@ static void c12_dfs(struct mstate* m, struct op* prefix, int base, int depth, in
   }
   /* refused variants of the inserting ops (the allocator refuses everything during the call) */
   { int na0 = na; for (int c = 0; c < na0 && na < 96; c++) if (alpha[c].code == OP_PUSH || alpha[c].code == OP_MAPADD || alpha[c].code == OP_ADDCHUNK) { alpha[na] = alpha[c]; alpha[na].code |= 0x80; na++; } }
+  /* ... and the same with the argument lent through cbor_move (count 0 inside the call), refused and not */
+  { int na0 = na; for (int c = 0; c < na0 && na < 96; c++) if (alpha[c].b == 1 && alpha[c].c == ((alpha[c].code & 0x3f) == OP_MAPADD ? 2 : 0) && ((alpha[c].code & 0x3f) == OP_PUSH || (alpha[c].code & 0x3f) == OP_MAPADD || (alpha[c].code & 0x3f) == OP_ADDCHUNK)) { alpha[na] = alpha[c]; alpha[na].code |= 0x40; na++; } }
   for (int c = 0; c < na; c++) {
     struct mstate next = *m;
     struct op plain = alpha[c];
-    plain.code &= 0x7f;
+    plain.code &= 0x3f;
     if (m_apply(&next, plain, true) < 0) continue;
     if (alpha[c].code & 0x80) {
       /* the continuation after a refused insert is explored from the unchanged state when the container had to grow */
@@ -803,8 +835,8 @@ static void c12_growth(int kind, size_t n) {
   cbor_item_t* c = r_new(kind, 0);
   cbor_item_t* x = r_new(kind == K_IBS ? K_BSTR : kind == K_ITS ? K_TSTR : K_INT, 0);
   ta_reset_stats();
-  size_t prev_cap = 0;
-  for (size_t i = 0; i < n; i++) {
+  size_t prev_cap = 0, done = 0;
+  for (size_t i = 0; i < n; i++, done++) {
     bool ok;
     size_t capn, sz;
     if (kind == K_IARR) { ok = cbor_array_push(c, x); capn = cbor_array_allocated(c); sz = cbor_array_size(c); }
@@ -814,14 +846,22 @@ static void c12_growth(int kind, size_t n) {
     if (sz != i + 1) { vh_violation("size-differs-from-model", "after %zu insertions the %s reports size %zu", i + 1, kind_names[kind], sz); break; }
     if (sz > capn) { vh_violation("size-exceeds-capacity", "size %zu > capacity %zu", sz, capn); break; }
     if (capn < prev_cap) { vh_violation("capacity-shrank", "capacity went from %zu to %zu", prev_cap, capn); break; }
+    /* geometric = every growth step multiplies the capacity by a factor bounded away from 1, whatever the size reached
+     * (the configured factor is 2; anything from 1.25 up is accepted); an additive step has a factor that tends to 1 */
+    if (capn != prev_cap && prev_cap >= 4 && capn - prev_cap < prev_cap / 4) {
+      vh_violation("growth-not-geometric", "insertion %zu into an indefinite %s grew the capacity from %zu to %zu, a factor below 1.25: the step no longer scales with the size", i + 1, kind_names[kind], prev_cap, capn);
+      done++;
+      break;
+    }
+    if (capn != prev_cap) VH_MAX("max_capacity_step_observed", capn);
     prev_cap = capn;
   }
   /* logarithmic number of reallocations */
   double lg = 0; for (size_t t = n; t > 1; t >>= 1) lg += 1;
   uint64_t bound = (uint64_t)(2 * lg + 4);
   if (TA.reallocs > bound) vh_violation("growth-not-geometric", "%zu insertions into an indefinite %s cost %llu reallocations (bound 2*log2(n)+4 = %llu)", n, kind_names[kind], (unsigned long long)TA.reallocs, (unsigned long long)bound);
-  size_t want_rc = 1 + (kind == K_IMAP ? 2 * n : n);
-  if (cbor_refcount(x) != want_rc) vh_violation("refcount-differs-from-rules", "member inserted %zu times has refcount %zu (expected %zu)", n, cbor_refcount(x), want_rc);
+  size_t want_rc = 1 + (kind == K_IMAP ? 2 * done : done);
+  if (done == n && cbor_refcount(x) != want_rc) vh_violation("refcount-differs-from-rules", "member inserted %zu times has refcount %zu (expected %zu)", n, cbor_refcount(x), want_rc);
   VH_MAX("max_growth_insertions", n);
   VH_MAX("max_reallocs_in_growth_run", TA.reallocs);
   cbor_decref(&c);
@@ -1085,6 +1125,8 @@ static void hist_run(void) {
     vh_count_dyn("steps_that_released_memory", g_free_steps);
     vh_count_dyn("ops_executed", g_ops_executed);
     vh_count_dyn("ops_expected_to_be_refused", g_refused_ops);
+    vh_count_dyn("calls_with_arguments_lent_through_cbor_move", g_lent_calls);
+    vh_count_dyn("calls_with_lent_arguments_that_were_refused", g_lent_refused);
     vh_count_dyn("ops_in_which_an_allocation_refusal_fired", g_refusals_hit);
     for (int i = 1; i < OP_NOPS; i++) { char nm[64]; snprintf(nm, sizeof nm, "op.%s", op_names[i]); vh_count_dyn(nm, g_op_hist[i]); }
   } else if (P == 12) {
@@ -1120,9 +1162,16 @@ static void hist_run(void) {
       int unit = 0;
       for (int k = 0; k < 4; k++)
         for (size_t n = 1; n <= top; n = n < 70 ? n + 1 : n * 2 - 1) { if (unit++ % O.nshards == O.shard) c12_growth(kinds[k], n); if (n >= top) break; }
+      /* long runs: millions of members in one container (tables of tens of MiB) */
+      for (int k = 0; k < 4; k++) {
+        if (unit++ % O.nshards == O.shard) c12_growth(kinds[k], (size_t)3 << 19);
+        if (O.thorough && unit++ % O.nshards == O.shard) c12_growth(kinds[k], (size_t)3 << 21);
+      }
     } else vh_die("driver hist: unknown C12 stage '%s'", st);
     vh_count_dyn("ops_executed", g_ops_executed);
     vh_count_dyn("ops_expected_to_be_refused", g_refused_ops);
+    vh_count_dyn("calls_with_arguments_lent_through_cbor_move", g_lent_calls);
+    vh_count_dyn("calls_with_lent_arguments_that_were_refused", g_lent_refused);
     vh_count_dyn("ops_in_which_an_allocation_refusal_fired", g_refusals_hit);
     for (int i = 1; i < OP_NOPS; i++) if (g_op_hist[i]) { char nm[64]; snprintf(nm, sizeof nm, "op.%s", op_names[i]); vh_count_dyn(nm, g_op_hist[i]); }
   } else {
